@@ -153,40 +153,13 @@ Proof.
     pose proof (incr_last_max pre x Hr t Ht). lra.
 Qed.
 
-Section SimProofs.
-  Variables Y P U O : Type.
+Section IntegProofs.
+  Variables Y P : Type.
   Variable flow : P -> Q -> Y -> Q -> Y.
   Variable solve_ok : P -> Q -> Y -> Q -> bool.
-  Variable conv : Y -> Y -> bool.
-  Variable pupd : P -> U -> P.
-  Variable yovr : Y -> O -> Y.
-  Variable fx : sim_facts.
 
-  Notation sim := (sim Y P).
   Notation solve_ivp := (solve_ivp Y P flow solve_ok).
   Notation integrate_time_course := (integrate_time_course Y P flow solve_ok).
-  Notation integrate := (integrate Y P flow solve_ok).
-  Notation simulate := (simulate Y P flow solve_ok fx).
-  Notation simulate_time_course := (simulate_time_course Y P flow solve_ok fx).
-  Notation index_of := (index_of Y P).
-  Notation prior_t_end := (prior_t_end Y P).
-  Notation reached := (reached Y P).
-  Notation has_errors := (has_errors Y P).
-
-  (** what the theorems need from the regenerated facts *)
-  Record good_facts : Prop := {
-    g_sim_frame : f_sim_frame fx = FrameAbs;
-    g_sim_cmp : f_sim_cmp fx = CmpLe;
-    g_tc_frame : f_tc_frame fx = FrameAbs;
-    g_tc_cmp : f_tc_cmp fx = CmpLe;
-    g_tc_keep : f_tc_keep fx = CmpGe;
-    g_skip_sim : f_skip_sim fx = true;
-    g_skip_tc : f_skip_tc fx = true;
-    g_ptc_cmp : f_ptc_cmp fx = CmpLe;
-    g_win_lo : f_win_lo fx = CmpGt;
-    g_win_hi : f_win_hi fx = CmpLe;
-    g_updvar_keeps : f_updvar_keeps fx = true
-  }.
 
   (** ** the solver's contract on a forward span *)
   Lemma solve_ivp_forward p y0 h rest :
@@ -216,6 +189,80 @@ Section SimProofs.
     - destruct (negb (forallb (fun t => Qle_bool h t && Qle_bool t tf) (h :: rest))); [reflexivity|].
       assert (E0 : Qltb h tf = true) by (apply Qltb_iff; exact Hlt). rewrite E0. reflexivity.
   Qed.
+
+  (** ** one call of the integrator on a forward stretch, followed by [_handle_simulation_results] *)
+  Definition tp_eff (t0 : Q) (tp : list Q) : list Q :=
+    match tp with [] => [] | t :: _ => if negb (Qeq_bool t t0) then t0 :: tp else tp end.
+
+  Lemma itc_unfold p ig tp :
+    tp <> [] ->
+    integrate_time_course p ig tp =
+      match solve_ivp p (i_y0 ig) (tp_eff (i_t0 ig) tp) with
+      | IOk tc => (mkInteg (lastq (map fst tc) (i_t0 ig)) (last (map snd tc) (i_y0 ig)) (i_orig ig), IOk tc)
+      | r => (ig, r)
+      end.
+  Proof. destruct tp; [congruence|reflexivity]. Qed.
+
+  Lemma tp_eff_shape t0 tp :
+    tp <> [] ->
+    exists h rest, tp_eff t0 tp = h :: rest /\ h == t0
+      /\ ((h = t0 /\ rest = tp /\ forall d, ~ hd d tp == t0) \/ tp = h :: rest).
+  Proof.
+    destruct tp as [|t r]; [congruence|]. intros _. unfold tp_eff.
+    destruct (Qeq_bool t t0) eqn:E; cbn [negb].
+    - exists t, r. split; [reflexivity|]. split; [apply Qeq_bool_iff; exact E|right; reflexivity].
+    - exists t0, (t :: r). split; [reflexivity|]. split; [reflexivity|]. left.
+      split; [reflexivity|]. split; [reflexivity|]. intros d. cbn. apply Qeq_bool_false. exact E.
+  Qed.
+
+  Lemma last_map_snd (g : Q -> Y) l h d :
+    last (map snd (map (fun t => (t, g t)) (h :: l))) d = g (lastq l h).
+  Proof.
+    rewrite map_map. cbn [snd]. revert h. induction l as [|x r IH]; intro h; [reflexivity|].
+    change (last (map (fun t => g t) (h :: x :: r)) d) with (last (map (fun t => g t) (x :: r)) d).
+    rewrite IH. destruct r as [|z r']; [reflexivity|].
+    change (lastq (h :: x :: z :: r') h) with (lastq (z :: r') h).
+    change (lastq (x :: z :: r') h) with (lastq (z :: r') h).
+    change (lastq (z :: r') x) with (lastq (z :: r') x).
+    f_equal. apply lastq_default. discriminate.
+  Qed.
+
+End IntegProofs.
+
+Section SimProofs.
+  Variables Y P U O : Type.
+  Variable flow : P -> Q -> Y -> Q -> Y.
+  Variable solve_ok : P -> Q -> Y -> Q -> bool.
+  Variable conv : Y -> Y -> bool.
+  Variable pupd : P -> U -> P.
+  Variable yovr : Y -> O -> Y.
+  Variable fx : sim_facts.
+
+  Notation sim := (sim Y P).
+  Notation mflow := (mflow Y P flow fx).
+  Notation mok := (mok Y P solve_ok fx).
+  Notation simulate := (simulate Y P flow solve_ok fx).
+  Notation simulate_time_course := (simulate_time_course Y P flow solve_ok fx).
+  Notation index_of := (index_of Y P).
+  Notation prior_t_end := (prior_t_end Y P).
+  Notation reached := (reached Y P).
+  Notation has_errors := (has_errors Y P).
+
+  (** what the theorems need from the regenerated facts *)
+  Record good_facts : Prop := {
+    g_sim_frame : f_sim_frame fx = FrameAbs;
+    g_sim_cmp : f_sim_cmp fx = CmpLe;
+    g_tc_frame : f_tc_frame fx = FrameAbs;
+    g_tc_cmp : f_tc_cmp fx = CmpLe;
+    g_tc_keep : f_tc_keep fx = CmpGe;
+    g_skip_sim : f_skip_sim fx = true;
+    g_skip_tc : f_skip_tc fx = true;
+    g_ptc_cmp : f_ptc_cmp fx = CmpLe;
+    g_win_lo : f_win_lo fx = CmpGt;
+    g_win_hi : f_win_hi fx = CmpLe;
+    g_updvar_keeps : f_updvar_keeps fx = true;
+    g_abs_time : f_abs_time fx = true
+  }.
 
   Definition shiftv (s : sim) : Q := match s_shift s with None => 0 | Some x => x end.
 
@@ -268,34 +315,9 @@ Section SimProofs.
       split; [intros _; split; reflexivity|]. split; [congruence|lra].
   Qed.
 
-  (** ** one call of the integrator on a forward stretch, followed by [_handle_simulation_results] *)
-  Definition tp_eff (t0 : Q) (tp : list Q) : list Q :=
-    match tp with [] => [] | t :: _ => if negb (Qeq_bool t t0) then t0 :: tp else tp end.
-
-  Lemma itc_unfold p ig tp :
-    tp <> [] ->
-    integrate_time_course p ig tp =
-      match solve_ivp p (i_y0 ig) (tp_eff (i_t0 ig) tp) with
-      | IOk tc => (mkInteg (lastq (map fst tc) (i_t0 ig)) (last (map snd tc) (i_y0 ig)) (i_orig ig), IOk tc)
-      | r => (ig, r)
-      end.
-  Proof. destruct tp; [congruence|reflexivity]. Qed.
-
-  Lemma tp_eff_shape t0 tp :
-    tp <> [] ->
-    exists h rest, tp_eff t0 tp = h :: rest /\ h == t0
-      /\ ((h = t0 /\ rest = tp /\ forall d, ~ hd d tp == t0) \/ tp = h :: rest).
-  Proof.
-    destruct tp as [|t r]; [congruence|]. intros _. unfold tp_eff.
-    destruct (Qeq_bool t t0) eqn:E; cbn [negb].
-    - exists t, r. split; [reflexivity|]. split; [apply Qeq_bool_iff; exact E|right; reflexivity].
-    - exists t0, (t :: r). split; [reflexivity|]. split; [reflexivity|]. left.
-      split; [reflexivity|]. split; [reflexivity|]. intros d. cbn. apply Qeq_bool_false. exact E.
-  Qed.
-
   (** the state after an accepted integration: rows [(t + shift, flow ...)] for the points after the first *)
   Definition new_rows (s : sim) (h : Q) (pts : list Q) : segment Y :=
-    map (fun t => (add_shift (s_shift s) t, flow (s_mp s) h (i_y0 (s_int s)) (t - h))) pts.
+    map (fun t => (add_shift (s_shift s) t, mflow s (s_mp s) h (i_y0 (s_int s)) (t - h))) pts.
 
   Definition pars_list (s : sim) : list P := match s_pars s with None => [] | Some l => l end.
 
@@ -306,38 +328,26 @@ Section SimProofs.
              | Some l => l ++ [new_rows s h rest]
              end))
       (Some (pars_list s ++ [s_mp s])) (s_shift s) (s_errs s)
-      (mkInteg (lastq rest h) (flow (s_mp s) h (i_y0 (s_int s)) (lastq rest h - h)) (i_orig (s_int s)))
+      (mkInteg (lastq rest h) (mflow s (s_mp s) h (i_y0 (s_int s)) (lastq rest h - h)) (i_orig (s_int s)))
       (s_mp s).
 
   Definition after_fail (s : sim) : sim :=
     mkSim (s_y0 s) (s_vars s) (s_pars s) (s_shift s) (s_errs s ++ [EIntegration]) (s_int s) (s_mp s).
 
-  Lemma last_map_snd (g : Q -> Y) l h d :
-    last (map snd (map (fun t => (t, g t)) (h :: l))) d = g (lastq l h).
-  Proof.
-    rewrite map_map. cbn [snd]. revert h. induction l as [|x r IH]; intro h; [reflexivity|].
-    change (last (map (fun t => g t) (h :: x :: r)) d) with (last (map (fun t => g t) (x :: r)) d).
-    rewrite IH. destruct r as [|z r']; [reflexivity|].
-    change (lastq (h :: x :: z :: r') h) with (lastq (z :: r') h).
-    change (lastq (x :: z :: r') h) with (lastq (z :: r') h).
-    change (lastq (z :: r') x) with (lastq (z :: r') x).
-    f_equal. apply lastq_default. discriminate.
-  Qed.
-
   Lemma finish_itc (s : sim) tp h rest :
     tp <> [] -> tp_eff (i_t0 (s_int s)) tp = h :: rest -> rest <> [] -> h < lastq rest h ->
-    finish Y P s (integrate_time_course (s_mp s) (s_int s) tp) true =
+    finish Y P s (integrate_time_course Y P (mflow s) (mok s) (s_mp s) (s_int s) tp) true =
       if incrb (h :: rest)
-      then if solve_ok (s_mp s) h (i_y0 (s_int s)) (lastq rest h)
+      then if mok s (s_mp s) h (i_y0 (s_int s)) (lastq rest h)
            then (after_ok s h rest, Done)
            else (after_fail s, Done)
       else (s, RaisedValue).
   Proof.
-    intros Hne Heff Hr Hlt. rewrite (itc_unfold _ _ _ Hne), Heff.
-    rewrite (solve_ivp_forward _ _ _ _ Hr Hlt).
+    intros Hne Heff Hr Hlt. rewrite (itc_unfold Y P (mflow s) (mok s) _ _ _ Hne), Heff.
+    rewrite (solve_ivp_forward Y P (mflow s) (mok s) _ _ _ _ Hr Hlt).
     destruct s as [y0 vars pars sh errs ig mp]. cbn [s_int s_mp s_y0 s_vars s_pars s_shift s_errs] in *.
     destruct (incrb (h :: rest)); [|reflexivity].
-    destruct (solve_ok mp h (i_y0 ig) (lastq rest h)); [|reflexivity].
+    destruct (mok _ mp h (i_y0 ig) (lastq rest h)); [|reflexivity].
     unfold finish, set_int, handle_results, after_ok, new_rows, pars_list.
     cbn [fst snd s_int s_mp s_y0 s_vars s_pars s_shift s_errs].
     rewrite lastq_map_fst. rewrite (lastq_cons h rest _ Hr).
@@ -407,7 +417,7 @@ Section SimProofs.
 
   Definition step_result (s : sim) (h : Q) (rest : list Q) : sim * outcome :=
     if incrb (h :: rest)
-    then if solve_ok (s_mp s) h (i_y0 (s_int s)) (lastq rest h)
+    then if mok s (s_mp s) h (i_y0 (s_int s)) (lastq rest h)
          then (after_ok s h rest, Done)
          else (after_fail s, Done)
     else (s, RaisedValue).
@@ -614,7 +624,7 @@ Section SimProofs.
     (reached s < t_end ->
        sim_h s t_end m == i_t0 (s_int s) /\ incr (sim_h s t_end m :: sim_rest s t_end m)
        /\ simulate s t_end steps =
-            if solve_ok (s_mp s) (sim_h s t_end m) (i_y0 (s_int s)) (sub_shift (s_shift s) t_end)
+            if mok s (s_mp s) (sim_h s t_end m) (i_y0 (s_int s)) (sub_shift (s_shift s) t_end)
             then (after_ok s (sim_h s t_end m) (sim_rest s t_end m), Done) else (after_fail s, Done)).
   Proof.
     intros HI Herr Hn.
@@ -665,7 +675,7 @@ Section SimProofs.
     rest <> [] ->
     exists segs, s_vars (after_ok s h rest) = Some segs /\
       last_row Y segs = Some (add_shift (s_shift s) (lastq rest h),
-                              flow (s_mp s) h (i_y0 (s_int s)) (lastq rest h - h)).
+                              mflow s (s_mp s) h (i_y0 (s_int s)) (lastq rest h - h)).
   Proof.
     intro Hne. destruct (exists_last' rest Hne) as (pre & x & ->). rewrite lastq_app.
     unfold after_ok. cbn [s_vars]. destruct (s_vars s) as [l|]; eexists; (split; [reflexivity|]).
@@ -697,7 +707,7 @@ Section SimProofs.
   Proof.
     intros HI Hh Hne. unfold step_result.
     destruct (incrb (h :: rest)) eqn:E; [|exact HI].
-    destruct (solve_ok _ _ _ _); cbn [fst]; [|apply after_fail_inv2; exact HI].
+    destruct (mok _ _ _ _ _); cbn [fst]; [|apply after_fail_inv2; exact HI].
     apply after_ok_inv2; try assumption. apply incrb_incr. exact E.
   Qed.
 
@@ -728,7 +738,7 @@ Section SimProofs.
     destruct (sim_step good s t_end steps m (proj1 HI) Herr Hm) as [Hle Hgt].
     destruct (Qlt_le_dec (reached s) t_end) as [L|L].
     - destruct (Hgt L) as (Hh & Hinc & ->).
-      destruct (solve_ok _ _ _ _); cbn [fst]; [|exact HI].
+      destruct (mok _ _ _ _ _); cbn [fst]; [|exact HI].
       apply after_ok_inv2; try assumption.
       unfold sim_rest. destruct (map _ (seq 1 m)); discriminate.
     - rewrite (Hle L). exact HI.
@@ -797,16 +807,24 @@ Section SimProofs.
     index_of s' = (match s_vars s with None => [add_shift (s_shift s) h] | Some _ => index_of s end)
                   ++ map (add_shift (s_shift s)) rest
     /\ (exists segs, s_vars s' = Some segs /\
-          last segs [] = map (fun t => (add_shift (s_shift s) t, flow (s_mp s) h (i_y0 (s_int s)) (t - h)))
+          last segs [] = map (fun t => (add_shift (s_shift s) t, flow (s_mp s) (add_shift (s_shift s) h) (i_y0 (s_int s)) (t - h)))
                              (match s_vars s with None => h :: rest | Some _ => rest end)
           /\ removelast segs = match s_vars s with None => [] | Some l => l end)
     /\ s_pars s' = Some ((match s_pars s with None => [] | Some l => l end) ++ [s_mp s])
     /\ s_errs s' = s_errs s /\ s_mp s' = s_mp s /\ s_shift s' = s_shift s /\ s_y0 s' = s_y0 s.
 
-  Lemma after_ok_appended s h rest : appended s (after_ok s h rest) h rest.
+  Lemma mflow_good (good : good_facts) s :
+    mflow s = fun p t y d => flow p (add_shift (s_shift s) t) y d.
+  Proof. unfold Simulator.mflow. rewrite (g_abs_time good). reflexivity. Qed.
+
+  Lemma mok_true s : (forall p t y t1, solve_ok p t y t1 = true) -> forall p t y t1, mok s p t y t1 = true.
+  Proof. intros H p t y t1. unfold Simulator.mok. destruct (f_abs_time fx); apply H. Qed.
+
+  Lemma after_ok_appended (good : good_facts) s h rest : appended s (after_ok s h rest) h rest.
   Proof.
     unfold appended. split; [apply after_ok_index|]. split.
-    - unfold after_ok. cbn [s_vars]. destruct (s_vars s) as [l|]; eexists; (split; [reflexivity|]).
+    - unfold after_ok, new_rows. rewrite (mflow_good good). cbn [s_vars].
+      destruct (s_vars s) as [l|]; eexists; (split; [reflexivity|]).
       + rewrite last_last, removelast_last. split; reflexivity.
       + split; reflexivity.
     - repeat split.
@@ -839,12 +857,12 @@ Section SimProofs.
     - destruct (Hgt L) as (Hh & Hinc & E). rewrite E.
       assert (Hrne : sim_rest s t_end m <> []) by (unfold sim_rest; destruct (map _ (seq 1 m)); discriminate).
       split; [|split; [|split]].
-      + split; [|intro; lra]. destruct (solve_ok _ _ _ _); cbn [snd]; discriminate.
-      + destruct (solve_ok _ _ _ _); reflexivity.
+      + split; [|intro; lra]. destruct (mok _ _ _ _ _); cbn [snd]; discriminate.
+      + destruct (mok _ _ _ _ _); reflexivity.
       + intro. lra.
-      + intros s' Es Herr'. destruct (solve_ok _ _ _ _).
+      + intros s' Es Herr'. destruct (mok _ _ _ _ _).
         * injection Es as <-. cbv zeta. split; [exact Hh|]. split; [exact Hsync|]. split; [exact HV|].
-          split; [exact Hinc|]. split; [apply after_ok_appended|].
+          split; [exact Hinc|]. split; [apply (after_ok_appended good)|].
           destruct (after_ok_inv s _ _ HI Hh Hrne Hinc) as [_ Hp].
           rewrite (reached_prior _ _ Hp). unfold sim_rest at 1. rewrite lastq_app, add_shift_v, sub_shift_v.
           split; [lra|]. unfold sim_rest. rewrite app_length, map_length, seq_length. cbn. lia.
@@ -880,13 +898,13 @@ Section SimProofs.
       destruct (incrb (h :: rest)) eqn:Eb.
       + pose proof (incrb_incr _ Eb) as Hinc.
         split; [|split; [|split]].
-        * split; [destruct (solve_ok _ _ _ _); cbn [snd]; discriminate|].
+        * split; [destruct (mok _ _ _ _ _); cbn [snd]; discriminate|].
           intros [H|H]; [lra|]. exfalso. apply H, Hiff, Hinc.
-        * destruct (solve_ok _ _ _ _); reflexivity.
-        * destruct (solve_ok _ _ _ _); cbn [snd]; discriminate.
-        * intros s' Es Herr'. destruct (solve_ok _ _ _ _).
+        * destruct (mok _ _ _ _ _); reflexivity.
+        * destruct (mok _ _ _ _ _); cbn [snd]; discriminate.
+        * intros s' Es Herr'. destruct (mok _ _ _ _ _).
           -- injection Es as <-. exists h, rest. split; [exact Hh|]. split; [exact Hsync|]. split; [exact HV|].
-             split; [exact Hinc|]. split; [apply after_ok_appended|]. split; [exact (Hnew Hinc)|].
+             split; [exact Hinc|]. split; [apply (after_ok_appended good)|]. split; [exact (Hnew Hinc)|].
              destruct (after_ok_inv s _ _ HI Hh Hrne Hinc) as [_ Hp].
              rewrite (reached_prior _ _ Hp).
              (* the last appended point is the last requested point *)
